@@ -78,7 +78,7 @@ ApplyInits(S, D, key, t, obj, rules) ==
   IF rules = <<>> THEN obj
   ELSE LET r == Head(rules) IN
        ApplyInits(S, D, key, t,
-                  IF r.k = "init" /\ r.obj = key THEN ApplyAt(S, D, key, t, obj, Tail(r.fields), "direct", JStr(r.fields[1]), NoJ) ELSE obj,
+                  IF r.k = "init" /\ r.obj = key THEN ApplyAt(S, D, key, t, obj, Tail(r.fields), "direct", ConstOfText(Unwrap(S, TypeAt(S, key, t, Tail(r.fields)).t), r.fields[1]), NoJ) ELSE obj,
                   Tail(rules))
 FreshViolated(r) ==
   IF SameObj(ApplyInits(SOf(r), DOf(r), r.key, TypeOfKey(Entries[r.ei].schema, r.key), r.typeDefault, Entries[r.ei].rules), r.fresh)
